@@ -8,5 +8,5 @@ Extraction "model.ml"
   contains intersects covers env_min env_max min_max_xys as_box transform_xy as_geometry
   bounding_diagonal width height area dist2 center
   reverse_geom orient_geom visited_xys ctrl_xys holes_in_shell_box shells_nonempty tight_spec env_eqb
-  is_empty geom_vs force_geom
+  is_empty geom_vs force_geom env_points intersects_spec covers_spec dist2_spec
   N.add N.of_nat N.to_nat Z.add Z.of_N Z.to_N Z.opp Z.mul Z.eqb Z.of_nat.
